@@ -1,7 +1,7 @@
 """C13: vector-space operations obey the axioms for every value type."""
 from harness import common as C
 
-FILES = ["Containers/VSpace.v", "Containers/VSpaceProof.v", "Containers/Run13.v", "Props/C13.v"]
+FILES = ["Containers/VSpace.v", "Containers/VSpaceProof.v", "Containers/VSpaceTie.v", "Containers/Run13.v", "Props/C13.v"]
 RULE = ("random value types: Python floats/complex, NumPy scalars, real (float16/32/64/longdouble) and complex "
         "(complex64/128) arrays of rank 0..3 with dims in {0,1,2,3}, nested to depth 3 in lists/tuples/dicts "
         "(incl. empty containers); data are small integers / Gaussian integers so every dtype is exact; the "
